@@ -206,7 +206,8 @@ class Unit(param.Parameterized):
     gain = param.Number(1.0)
 auto = Unit()
 # explicit names that merely CONTAIN an auto-style name (class name + five digits) are not auto-generated
-names = [auto.name + '_copy', auto.name + 'x', 'X' + auto.name, auto.name + ' ', 'my unit', 'Unit_00001', 'unit00001', 'Unit-00001']
+names = [auto.name + '_copy', auto.name + 'x', 'X' + auto.name, auto.name + ' ', 'my unit', 'Unit_00001', 'unit00001', 'Unit-00001',
+         'Unit1', 'Unit42', 'Unit1234', 'Unit0']      # fewer than five digits: never generated
 for n in names:
     u = Unit(name=n, gain=2.0)
     text = u.param.pprint()
@@ -273,3 +274,20 @@ print('NOT-REPRODUCED'); sys.exit(0)
 '''
 
 PROBES = PROBES + [("the text follows the constructor signature of the object's own class", SIGNATURE_REPLAY)]
+
+
+NAME_IS_CLASS_REPLAY = '''import sys, os
+sys.path.insert(0, os.environ.get('PYVC_REPO', '/repo'))
+import param
+class Unit(param.Parameterized):
+    gain = param.Number(1.0)
+u = Unit(name='Unit', gain=2.0)
+text = u.param.pprint()
+v = eval(text, {'Unit': Unit})
+if v.name != 'Unit':
+    print("an explicit name equal to the class name is not printed: %s rebuilds name=%r" % (text, v.name))
+    print('REPRODUCED'); sys.exit(1)
+print('NOT-REPRODUCED'); sys.exit(0)
+'''
+
+PROBES = PROBES + [("an explicit name equal to the class name", NAME_IS_CLASS_REPLAY)]
